@@ -90,9 +90,27 @@ ProjFails(C) ==
   UNION {Fail(pr.voldef_ok[l], "ProjVolumePreserved", l, "")
          \cup Fail(pr.orient_pre[l] => pr.orient_fine[l + 1], "ProjOrientationPreserved", l, "") : l \in 1..(L - 1)}
 
+\* the node was renumbered by RootMeshNode::create_permutation before the refinement: C.orig[1] is the level before the
+\* renumbering, C.levels[1] the level after it, C.perm[1] the permutations stored in the mesh (cases without it: nothing to judge)
+PermFails(C) ==
+  IF ~("perm" \in DOMAIN C) THEN {}
+  ELSE
+    LET Mo == C.orig[1]  Mp == C.levels[1]  P == C.perm[1]  fam == C.fam  dim == C.dim IN
+    IF ~(WellFormed(Mo, fam, dim) /\ WellFormed(Mp, fam, dim)) THEN Fail(FALSE, "WellFormed", 0, "orig")
+    ELSE IF ~ForwardPermsOK(Mo, P, dim) THEN Fail(FALSE, "PermutationsStored", 0, "")
+    ELSE UNION {
+      Fail(PermutationsStored(Mo, P, dim), "PermutationsStored", 0, ""),
+      Fail(Relabelled(Mo, Mp, P, fam, dim), "Relabelled", 0, ""),
+      Fail(Len(Mo.parts) = Len(Mp.parts), "MACHINERY:PartCount", 0, ""),
+      IF Len(Mo.parts) = Len(Mp.parts)
+      THEN UNION {IF PartTargetsOK(Mo, Mo.parts[j], dim) /\ PartTargetsOK(Mp, Mp.parts[j], dim)
+                  THEN Fail(PartRelabelled(Mo, Mo.parts[j], Mp.parts[j], P, dim), "PartRelabelled", 0, Mo.parts[j].name)
+                  ELSE Fail(FALSE, "PartTargetsOK", 0, Mo.parts[j].name) : j \in 1..Len(Mo.parts)}
+      ELSE {} }
+
 Verdict(C) ==
   LET L == Len(C.levels) IN
-  UNION {LevelFails(C, drv.D, l) : l \in 1..L} \cup UNION {PairFails(C, drv.D, drv.P, l) : l \in 1..(L - 1)} \cup ProjFails(C)
+  UNION {LevelFails(C, drv.D, l) : l \in 1..L} \cup UNION {PairFails(C, drv.D, drv.P, l) : l \in 1..(L - 1)} \cup ProjFails(C) \cup PermFails(C)
 
 Info(C) ==
   LET fam == C.fam  dim == C.dim  M == C.levels[1] IN
